@@ -350,6 +350,13 @@ func c01Scenario(c *mon.Ctx, r *rand.Rand, lg *world.Log, key, evil *world.Key, 
 	}
 	base := world.New(c01Name, key, lg)
 	switch mode {
+	case "cold":
+		// nothing cached; the stored head is absent, or the genuine signed head of the still empty log
+		// (a client that first ran before the first record was published)
+		if r.IntN(2) == 0 {
+			base.Config[c01Name+"/latest"] = lg.Head(0)
+			c.Class("cold:stored-head-of-the-empty-tree")
+		}
 	case "warm-larger":
 		n2 := len(lg.Mods)
 		base.Remote = base.HonestRemote(n2)
